@@ -67,7 +67,7 @@ def run(ctx):
         "C14's specification of the two id allocators is assumed, not re-proved here: an allocation returns an id no live holder has, end() exceeds every id handed out and never decreases, for_each at quiescence reports exactly the held ids",
         "harness/c19.cpp maps cell addresses to (storage, slot, offset) by reading the block tables; its reference arithmetic is the oracle",
         "model arithmetic is over Z: signed overflow of a counter (undefined behaviour in the C++) is outside the model",
-        "concurrent reads: cells are modelled as relaxed atomics (single aligned 8-byte words); torn 16-byte accesses of the summer under concurrency are outside the model",
+        "concurrent reads: the theorem models cells as relaxed atomics (one word); for the summer the correspondence additionally checks, on the real code under VRT (one 16-byte intrinsic access = one scheduled access), that every overlapping read equals (completed at the call) + a per-thread prefix of the overlapping contributions in BOTH components; that the hardware performs the aligned 128-bit access indivisibly is babylon's own assumption and is trusted",
     ]
     ctx.assumptions += [
         "fewer than 65409 thread ids of one type (tidEnd <= 65536 - 128): for_each narrows snapshot.size() to uint16_t; necessary, see for_each_u16_wrap_counterexample",
@@ -164,7 +164,7 @@ def run(ctx):
                        "counters of 6 kinds (adder, summer, maxer, miner, bare EnumerableThreadLocal, bare CompactEnumerableThreadLocal) created / destroyed (60% followed by an "
                        "immediate re-creation that recycles the id) / move-constructed / move-assigned / reset by the main thread between generations and, in half of the phases, "
                        "while the workers count; bursts of 10-40 compact instances cross the cache-line boundary, seeds = 0 mod 16 create 516 summers, = 0 mod 64 1030 adders (second storage of the family); "
-                       "every live counter is read at every quiescent point, half of the phases have reads overlapping adds; schedules: seeded random with 5 stickiness "
+                       "every live counter is read at every quiescent point; in half of the phases the workers hammer one hot counter (70% a summer) while the main thread reads it 4-11 times, each such read checked against the per-thread-prefix sets; schedules: seeded random with 5 stickiness "
                        "levels, or PCT.  Non-trivial = the history recycled an instance id and a thread id and had >= 3 threads, and replayed; distinct by event-trace hash")
     ctx.cov["samples"] = samples or [["<no sample>"]]
 
